@@ -1,15 +1,16 @@
 //! unit: u01j
-//! properties: C01
+//! properties: C01 C03
 //! note: which pending HTLCs count towards the next commitment and which are already folded into the balance (ChannelContext::get_next_commitment_htlcs vs get_next_commitment_value_to_self_msat): every pending HTLC is represented exactly once
 //! trusted: R15 (statement slicing): both functions are iterator chains over the channel's HTLC vectors; the unit extracts, on every run, the four `match (state, local)` predicates (the bodies of the `.filter(..)` closures) verbatim into four predicate functions over the real state enums and proves the exactly-once relation between them; the surrounding map/sum/chain plumbing is dropped and not claimed
 //! trusted: payload types of the state enums (InboundHTLCResolution, InboundUpdateAdd, OnionErrorPacket, OnionPacket, PaymentPreimage, AttributionData, HTLCFailReason) are opaque
 //! trusted: R15 (deep slices): revoke_and_ack: the bodies of the two `retain` closures that drop irrevocably removed HTLCs and accumulate value_to_self_msat_diff, and the statement applying the diff to every funding scope, verbatim; InboundHTLCOutput / OutboundHTLCOutput field skeletons; OutboundHTLCOutcome::clone external_body (returns an equal value); hold_time_since / set_hold_time external_body (timing only: `.map(|hold_time| ..)` with a captured &mut is written as a match, R8, and the timestamp argument is dropped); R16 for `&`-patterns; the promotion of the remaining HTLC states in the same function is dropped and not claimed
+//! trusted: R15 (deep slice): mark_outbound_htlc_removed: the per-HTLC block of the search loop verbatim as a function of that HTLC; Sha256 is the external_body wrapper sha256 (R8); PaymentHash equality is structural; error strings dropped
 //! assume: HTLC amounts and balances <= 21e18 msat; |value_to_self_msat_diff| <= 4e18 while it is accumulated; the resulting balance lies between 0 and the channel value (representation invariant of the channel)
 //! plemma: C01 lemma_each_pending_htlc_exactly_once: an HTLC is never both an output of the next commitment and already credited to the claimer's balance, and a successfully claimed HTLC that is no longer an output is always credited (for both commitments)
 use vstd::prelude::*;
 verus! {
 pub struct InboundHTLCResolution {} pub struct InboundUpdateAdd {} pub struct OnionErrorPacket {} pub struct OnionPacket {}
-pub struct PaymentPreimage {} pub struct AttributionData {} pub struct HTLCFailReason {}
+pub struct PaymentPreimage(pub [u8; 32]); pub struct AttributionData {} pub struct HTLCFailReason {}
 //@extract lightning/src/ln/channel.rs :: enum InboundHTLCRemovalReason
 //@strip msgs
 //@end
@@ -110,6 +111,12 @@ pub proof fn lemma_each_pending_htlc_exactly_once(i: InboundHTLCState, o: Outbou
 
 // ---- irrevocable settlement: how revoke_and_ack moves value_to_self_msat (three deep R15 slices of FundedChannel::revoke_and_ack) ----
 #[derive(Clone, Copy)] pub struct PaymentHash(pub [u8; 32]);
+impl vstd::std_specs::cmp::PartialEqSpecImpl for PaymentHash { open spec fn obeys_eq_spec() -> bool { true } open spec fn eq_spec(&self, other: &PaymentHash) -> bool { *self == *other } }
+impl PartialEq for PaymentHash { #[verifier::external_body] fn eq(&self, o: &PaymentHash) -> (r: bool) { self.0 == o.0 } }
+pub uninterp spec fn sha256_spec(b: [u8; 32]) -> [u8; 32];
+#[verifier::external_body] pub fn sha256(b: &[u8; 32]) -> (r: [u8; 32]) ensures r == sha256_spec(*b) { unimplemented!() }
+pub enum ChannelError { Close(u8) }
+impl ChannelError { #[verifier::external_body] pub fn close(_m: u8) -> (r: ChannelError) { unimplemented!() } }
 pub struct HTLCSource {}
 impl Clone for HTLCSource { #[verifier::external_body] fn clone(&self) -> (r: Self) { unimplemented!() } }
 pub struct Duration {}
@@ -196,6 +203,40 @@ pub struct OutboundHTLCOutput { pub htlc_id: u64, pub amount_msat: u64, pub paym
     funding.value_to_self_msat as i64 + value_to_self_msat_diff
 //@with
     funding.value_to_self_msat as i64 - value_to_self_msat_diff
+//@end
+
+// ---- the peer removes one of our HTLCs (update_fulfill_htlc / update_fail_htlc): deep R15 slice of FundedChannel::mark_outbound_htlc_removed ----
+//@extract lightning/src/ln/channel.rs :: impl FundedChannel :: fn mark_outbound_htlc_removed
+//@slice R15
+    if htlc.htlc_id == htlc_id { $body:any return Ok(htlc); }
+//@with
+    fn mark_removed_on_htlc(htlc: &mut OutboundHTLCOutput, htlc_id: u64, outcome: OutboundHTLCOutcome) -> Result<(), ChannelError> {
+        $body
+        return Ok(());
+    }
+//@rw R8
+    PaymentHash(Sha256::hash(&preimage.0[..]).to_byte_array())
+//@with
+    PaymentHash(sha256(&preimage.0))
+//@rw R8 *
+    ChannelError::close(format!($f:any))
+//@with
+    ChannelError::close(0)
+//@r7
+//@ret r
+//@ensures P C01,C03 a-peers-fulfil-is-accepted-only-with-the-preimage-of-the-htlcs-payment-hash-and-only-for-a-committed-htlc-which-then-records-exactly-that-outcome
+    r is Ok ==> (outcome matches OutboundHTLCOutcome::Success { preimage, .. } ==> sha256_spec(preimage.0) == old(htlc).payment_hash.0)
+        && old(htlc).state is Committed && final(htlc).state == OutboundHTLCState::RemoteRemoved(outcome)
+        && final(htlc).amount_msat == old(htlc).amount_msat && final(htlc).payment_hash == old(htlc).payment_hash,
+    r is Err ==> final(htlc).state == old(htlc).state,
+//@mutant wrong_preimage_accepted
+    if payment_hash != htlc.payment_hash {
+//@with
+    if false {
+//@mutant htlc_removed_twice
+    OutboundHTLCState::AwaitingRemoteRevokeToRemove(_) | OutboundHTLCState::AwaitingRemovedRemoteRevoke(_) | OutboundHTLCState::RemoteRemoved(_) =>
+//@with
+    OutboundHTLCState::RemoteRemoved(_) => { htlc.state = OutboundHTLCState::RemoteRemoved(outcome); }, OutboundHTLCState::AwaitingRemoteRevokeToRemove(_) | OutboundHTLCState::AwaitingRemovedRemoteRevoke(_) =>
 //@end
 }
 fn main() {}
